@@ -524,6 +524,47 @@ func (c07) Exec(script interface{}, c *core.Ctx) {
 			return
 		}
 	}
+	// the stream arrives in a bytes.Buffer that keeps receiving: the table read from it is the
+	// table, whatever the producer writes into the buffer afterwards. Also: a stream that ends
+	// inside a PID-0 packet without payload has no PID-0 packet either.
+	if s.Salt%4 == 2 && found {
+		buf := new(bytes.Buffer)
+		buf.Write(stream[:(patIdx+1)*188])
+		var pb psi.PAT
+		var berr error
+		if !c.Call("psi.ReadPAT(bytes.Buffer)", func() { pb, berr = psi.ReadPAT(buf) }) {
+			return
+		}
+		if berr != nil {
+			c.Fail("carrier_stream", "stream:readpat_error_from_a_bytes_buffer", berr, nil)
+			return
+		}
+		if !checkPAT(pb, "stream") {
+			return
+		}
+		io.Copy(io.Discard, buf)
+		// (exactly as much as the buffer held before: it re-uses its storage rather than growing)
+		junk := bytes.Repeat([]byte{0x47, 0x1F, 0xFE, 0x10, 0x00, 0xB0, 0xFF, 0x3C}, 47*(patIdx+1)/2+1)[:(patIdx+1)*188]
+		buf.Write(junk)
+		c.Probe("buffer_the_pat_was_read_from_keeps_receiving")
+		if !checkPAT(pb, "stream_buffer_written_later") {
+			return
+		}
+		var cut packet.Packet
+		cut[0], cut[1], cut[2], cut[3], cut[4], cut[5] = 0x47, 0x40, 0x00, 0x20, 183, 0x00
+		for k := 6; k < 188; k++ {
+			cut[k] = 0xFF
+		}
+		var cerr error
+		tr := append(append([]byte(nil), stream[:patIdx*188]...), cut[:4+s.Salt%184]...)
+		if !c.Call("psi.ReadPAT(stream ends inside a PID 0 packet without payload)", func() { _, cerr = psi.ReadPAT(bytes.NewReader(tr)) }) {
+			return
+		}
+		if cerr != gots.ErrPATNotFound {
+			c.Fail("not_found", "stream:pat_not_found_error_missing_for_cut_payloadless_packet", cerr, "ErrPATNotFound")
+			return
+		}
+	}
 	// the caller re-uses one buffer for successive tables of the same size: what the
 	// library answers for the new table must not come from the previous one
 	if n > 0 {
